@@ -320,7 +320,7 @@ def gen_inputs(ctx, scale=1):
     bnds = [None, 'near', 'far', 'flat', 'curved', 'backward', 'pitch']
     i = 0
     # --- Gaussian beam through every method x both APIs, transform on the doubled grid (the torch default)
-    for rep in range(scale * (4 if ctx.thorough else 3)):
+    for rep in range(scale * (10 if ctx.thorough else 3)):
         for shape in sizes:
             b = bnds[i % len(bnds)]; i += 1
             g = gauss_case(rng, shape, b)
@@ -332,7 +332,7 @@ def gen_inputs(ctx, scale=1):
             out.append(('agree', dict(g, pad=True)))
     # --- transfer-function methods on the bare grid (even, odd, non-square), any distance the beam fits in
     for shape in [(64, 64), (63, 63), (97, 81), (128, 128), (101, 128)] + ([(255, 255), (160, 200)] if ctx.thorough else []):
-        for rep in range(scale * (3 if ctx.thorough else 2)):
+        for rep in range(scale * (6 if ctx.thorough else 2)):
             g = gauss_case(rng, shape, None, ir=False)
             for api in ('torch', 'numpy'):
                 for m in T_TF:
@@ -340,7 +340,7 @@ def gen_inputs(ctx, scale=1):
             out.append(('agree', dict(g, pad=False)))
     # --- the library's own lens x aperture
     j = 0
-    for rep in range(scale * (3 if ctx.thorough else 2)):
+    for rep in range(scale * (8 if ctx.thorough else 2)):
         for shape in sizes[:3] + ([(160, 160), (256, 256)] if ctx.thorough else []):
             for kind in ('gauss', 'circ', 'square'):
                 if kind != 'gauss' and min(shape) < 96: continue      # a hard aperture that focuses sharply (Fresnel number >= 5.5) needs the larger grids
